@@ -109,6 +109,20 @@ class C15(core.Prop):
                 entry.append([nm, ekind])
             rows = [[self._value(rng, kd if kd != 'float' else 'int') for _, kd in entry] for _ in range(rng.randint(1, 3))]
             out.append({'t': 'deliver', 'flavour': rng.choice(['dense', 'frame']), 'query': query, 'entry': entry, 'rows': rows})
+        # several arrangements of ONE query served by one long-lived reader (permutations / supersets of the same fields)
+        for _ in range(n // 10):
+            k = rng.randint(2, 4)
+            qnames = rng.sample(NAMES[:5], k)
+            query = [[nm, rng.choice(['int', 'int', 'str'])] for nm in qnames]
+            entries = []
+            extras = rng.sample(NAMES[5:], 1)
+            for _ in range(rng.randint(2, 4)):
+                enames = list(qnames) + (extras if rng.random() < 0.4 else [])
+                rng.shuffle(enames)
+                entry = [[nm, dict(query).get(nm, 'int')] for nm in enames]
+                rows = [[self._value(rng, kd) for _, kd in entry] for _ in range(rng.randint(1, 2))]
+                entries.append({'flavour': rng.choice(['dense', 'frame']), 'entry': entry, 'rows': rows})
+            out.append({'t': 'deliver_seq', 'query': query, 'entries': entries})
         for _ in range(n // 2):
             h, w = rng.randint(1, 4), rng.randint(1, 4)
             rows = [[self._value(rng, rng.choice(['int', 'str'])) for _ in range(w)] for _ in range(h)]
@@ -136,6 +150,18 @@ class C15(core.Prop):
 
         return [impl.observe(c) for c in cases]
 
+    @staticmethod
+    def _subcases(case, obs):
+        if 'error' in obs:
+            return []
+        return [({'t': 'deliver', 'query': case['query'], **sub}, o) for sub, o in zip(case['entries'], obs['seq'])]
+
+    def coq_cases(self, case, obs):
+        if case['t'] == 'deliver_seq':
+            return [t for t in (self.coq_case(c, o) for c, o in self._subcases(case, obs)) if t]
+        term = self.coq_case(case, obs)
+        return [term] if term else []
+
     def coq_case(self, case, obs):
         if 'error' in obs:
             return '(C15.CMatch nil nil false (Some nil))'
@@ -153,6 +179,14 @@ class C15(core.Prop):
 
     # ---- oracle from the property text -------------------------------------------------------------------
     def oracle(self, case, obs):
+        if case['t'] == 'deliver_seq':
+            if 'error' in obs:
+                return f"raised {obs['error']}"
+            for k, (c, o) in enumerate(self._subcases(case, obs)):
+                problem = self.oracle(c, o)
+                if problem:
+                    return f'entry {k} served by the same reader: {problem}'
+            return None
         if 'error' in obs:
             return f"raised {obs['error']}"
         if case['t'] == 'deliver':
@@ -189,6 +223,8 @@ class C15(core.Prop):
             q, e = case['query'], case['entry']
             names_differ = [n for n, _ in q] != [n for n, _ in e]
             return names_differ and any(dict(e).get(n) not in (None, k) for n, k in q)
+        if case['t'] == 'deliver_seq':
+            return True
         return len(case['ops']) >= 2
 
     def shrink(self, case):
@@ -203,6 +239,10 @@ class C15(core.Prop):
             if len(case['query']) > 1:
                 for j in range(len(case['query'])):
                     out.append({**case, 'query': case['query'][:j] + case['query'][j + 1 :]})
+        elif case['t'] == 'deliver_seq':
+            if len(case['entries']) > 2:
+                out.append({**case, 'entries': case['entries'][:-1]})
+                out.append({**case, 'entries': case['entries'][1:]})
         else:
             if len(case['ops']) > 1:
                 out.append({k: v for k, v in {**case, 'ops': case['ops'][:-1]}.items() if k != 'wfinal'})
@@ -212,13 +252,16 @@ class C15(core.Prop):
         dist = {'by_type': {}, 'refused': 0, 'permuted': 0, 'superset': 0, 'needs_cast': 0, 'flavours': {}, 'chained_ops': 0, 'relabelled_frames': 0}
         for c, o in zip(cases, observations):
             dist['by_type'][c['t']] = dist['by_type'].get(c['t'], 0) + 1
-            dist['flavours'][c['flavour']] = dist['flavours'].get(c['flavour'], 0) + 1
+            if 'flavour' in c:
+                dist['flavours'][c['flavour']] = dist['flavours'].get(c['flavour'], 0) + 1
             if c['t'] == 'deliver':
                 dist['refused'] += bool(o.get('refused'))
                 qn, en = [n for n, _ in c['query']], [n for n, _ in c['entry']]
                 dist['permuted'] += sorted(qn) == sorted(en) and qn != en
                 dist['superset'] += set(qn) < set(en)
                 dist['needs_cast'] += any(dict(c['entry']).get(n) not in (None, k) for n, k in c['query'])
+            elif c['t'] == 'deliver_seq':
+                dist['same_reader_entries'] = dist.get('same_reader_entries', 0) + len(c['entries'])
             else:
                 dist['chained_ops'] += len(c['ops']) >= 2
                 dist['relabelled_frames'] += 'labels' in c
